@@ -61,8 +61,9 @@ def parse_tok(t, hexmode):
 # ------------------------------------------------------------------ case <-> line
 def make_line(c):
     tk = tok_hex if c["regime"] == "float" else tok_exact
-    secs = [["interpf" if c["regime"] == "float" else "interp", str(c["D"]), str(c["T"]), str(c["A"]), str(c["nargs"]),
-             str(c["opt"]), tk(c["ev"])]]
+    # header field NARGS = number of optional arguments (0..2) + 3 * call form (0: array arguments, 1: Expression arguments)
+    secs = [["interpf" if c["regime"] == "float" else "interp", str(c["D"]), str(c["T"]), str(c["A"]),
+             str(c["nargs"] + 3 * c.get("form", 0)), str(c["opt"]), tk(c["ev"])]]
     for k in c["knots"]:
         secs.append([tk(v) for v in k])
     secs.append([str(d) for d in c["dims"]])
@@ -77,7 +78,7 @@ def parse_line(line):
     h = secs[0]
     hexmode = h[0] == "interpf"
     D, T, A, nargs, opt = (int(x) for x in h[1:6])
-    c = {"regime": "float" if hexmode else "exact", "D": D, "T": T, "A": A, "nargs": nargs, "opt": opt,
+    c = {"regime": "float" if hexmode else "exact", "D": D, "T": T, "A": A, "nargs": nargs % 3, "form": nargs // 3, "opt": opt,
          "ev": parse_tok(h[6], hexmode)}
     c["knots"] = [[parse_tok(t, hexmode) for t in secs[1 + d]] for d in range(D)]
     c["dims"] = [int(t) for t in secs[1 + D]]
@@ -497,7 +498,7 @@ class Gen:
             opt = r.choice(VALID_OPTS)
         nargs = r.choice([2] * 8 + [1, 1, 0])
         ev = r.choice([Fr(-1), Fr(-1), Fr(0), Fr(7, 2), Fr(1000), "nan", "inf"])
-        c = {"regime": "exact", "D": D, "T": T, "A": A, "nargs": nargs, "opt": opt, "ev": ev,
+        c = {"regime": "exact", "D": D, "T": T, "A": A, "nargs": nargs, "form": 1 if r.random() < 0.3 else 0, "opt": opt, "ev": ev,
              "knots": knots, "dims": dims, "data": data, "q": q}
         assert exact_regime_ok(c), make_line(c)
         if r.random() < 0.06:
@@ -581,8 +582,8 @@ class Gen:
             q = [[fq(knots[d]) for _ in range(nq)] for d in range(D)]
         opt = r.choice(VALID_OPTS) if r.random() < 0.95 else r.randrange(64)
         ev = r.choice([-1.0, 0.0, 2.5, "nan"])
-        return {"regime": "float", "D": D, "T": T, "A": 0, "nargs": r.choice([2, 2, 2, 1, 0]), "opt": opt, "ev": ev,
-                "knots": knots, "dims": dims, "data": data, "q": q}
+        return {"regime": "float", "D": D, "T": T, "A": 0, "nargs": r.choice([2, 2, 2, 1, 0]), "form": 1 if r.random() < 0.25 else 0,
+                "opt": opt, "ev": ev, "knots": knots, "dims": dims, "data": data, "q": q}
 
 
 def roundtrip(c):
@@ -595,7 +596,13 @@ def roundtrip(c):
 def run_lines(exe, lines):
     text = "\n".join(lines) + "\n"
     impl, rc, err = vcheck.run_impl(exe, [], text)
-    model = vcheck.run_model("interp", text)
+    # the call form (array / Expression arguments) is not part of the model: both must give the model's answer
+    def strip_form(l):
+        w = l.split(" ")
+        if len(w) > 4 and w[4].isdigit():
+            w[4] = str(int(w[4]) % 3)
+        return " ".join(w)
+    model = vcheck.run_model("interp", "\n".join(strip_form(l) for l in lines) + "\n")
     return impl, model, rc, err
 
 
@@ -759,6 +766,7 @@ def tally(ctx, c, il):
     dec = decode_options(0 if c["nargs"] == 0 else c["opt"])
     b("opts:" + ("invalid" if dec is None else "%s/%s" % dec))
     b("nargs%d" % c["nargs"])
+    b("call form: " + ("Expression arguments" if c.get("form") else "array arguments"))
     for k in c["knots"]:
         if len(k) >= 2:
             b("direction:" + ("inc" if k[0] < k[1] else "dec"))
@@ -860,6 +868,32 @@ def systematic():
             out.append({"regime": "exact", "D": 3, "T": 0, "A": 0, "nargs": 2, "opt": opt, "ev": F(-1),
                         "knots": [xs, x2, [F(2), F(0)]], "dims": [4, 3, 2], "data": m3,
                         "q": [[F(1), F(8), F(3), F(0), F(9)], [F(0), F(3, 2), F(1, 2), F(1), F(2)], [F(2), F(0), F(1), F(3), F(-1)]]})
+    # inconsistent extents, one at a time: each query vector longer / shorter than the others, each coordinate vector longer /
+    # shorter than its data extent (size_mismatch must be raised whichever SINGLE argument is the odd one), plain and
+    # Expression-argument call forms, with and without trailing dimensions
+    base = {1: ([[F(1), F(2), F(4)]], [3]), 2: ([[F(1), F(2), F(4)], [F(0), F(3)]], [3, 2]),
+            3: ([[F(1), F(2), F(4)], [F(0), F(3)], [F(5), F(4), F(2), F(1)]], [3, 2, 4])}
+    for D in (1, 2, 3):
+        knots, dims = base[D]
+        for T in (0, 1):
+            dd = dims + ([2] if T else [])
+            n = 1
+            for v in dd:
+                n *= v
+            data = [F(i * 3 % 7 - 2) for i in range(n)]
+            qs = [[F(1), F(3), F(2)] for _ in range(D)]
+            for form in (0, 1):
+                for d in range(D):
+                    for delta in (+1, -1):
+                        if D >= 2:
+                            q2 = [list(q) for q in qs]
+                            q2[d] = q2[d] + [F(2)] if delta > 0 else q2[d][:-1]
+                            out.append({"regime": "exact", "D": D, "T": T, "A": 0, "nargs": 2, "form": form, "opt": 0, "ev": F(-1),
+                                        "knots": [list(k) for k in knots], "dims": list(dd), "data": list(data), "q": q2})
+                        k2 = [list(k) for k in knots]
+                        k2[d] = k2[d] + [k2[d][-1] + (k2[d][-1] - k2[d][-2])] if delta > 0 else k2[d][:-1]
+                        out.append({"regime": "exact", "D": D, "T": T, "A": 0, "nargs": 2, "form": form, "opt": 0, "ev": F(-1),
+                                    "knots": k2, "dims": list(dd), "data": list(data), "q": [list(q) for q in qs]})
     return out
 
 
